@@ -29,6 +29,14 @@ const whyNilPtr = "nil pointer re-typing"
 // d32215c; now the shape is executed and only "no panic" is asserted for it.
 const knownNilPtrPanic = false
 
+// assertPtrMismatch: a value met by a pointer parameter, or a non-nil pointer met by a non-pointer,
+// non-interface parameter, has no Go conversion and the call must fail (eighth round; before, the
+// cell was left unasserted together with pointer-to-pointer re-typing, which still is).
+const assertPtrMismatch = true
+
+// whyPtrMismatch starts the reason text of those cells.
+const whyPtrMismatch = "pointer-ness differs"
+
 var stName = []string{" ok", " none", " unasserted", " either"}
 
 // convRes is the result of goConvert.
@@ -59,9 +67,10 @@ type convRes struct {
 //
 // string -> byte/rune: see convStrChar (error for several characters, "error or that
 // character" for one). Unasserted cells (statement silent, code special-cases): the empty and
-// the non-UTF-8 string -> byte/rune, pointer vs non-pointer and pointer-to-pointer re-typing, float outside the target
-// integer range, integer -> float32 where single and double rounding differ, maps whose
-// converted keys collide.
+// the non-UTF-8 string -> byte/rune, pointer-to-pointer re-typing, a typed nil pointer for a non-pointer parameter,
+// a slice for a pointer-to-array parameter (a value for a pointer parameter and a non-nil pointer for a non-pointer
+// parameter otherwise have no conversion: assertPtrMismatch), float outside the target integer range,
+// integer -> float32 where single and double rounding differ, maps whose converted keys collide.
 func goConvert(v reflect.Value, T reflect.Type) convRes {
 	v = unwrap(v)
 	cell := kindName(dynType(v)) + "->" + kindName(T)
@@ -94,6 +103,20 @@ func goConvert(v reflect.Value, T reflect.Type) convRes {
 			}
 			// a nil pointer is nil: T's zero value (the typed nil pointer)
 			return convRes{st: cOK, v: reflect.Zero(T), cell: cell}
+		}
+		if assertPtrMismatch {
+			// exactly one side is a pointer. Go has no conversion between T and *T in either
+			// direction (the only conversion from a non-pointer to a pointer type is slice ->
+			// pointer to array, judged by `arrayptr`; a typed nil pointer met by a non-pointer
+			// parameter is left open: "T's zero value for nil" can be read to include it)
+			switch {
+			case T.Kind() == reflect.Ptr && vt.Kind() != reflect.Ptr:
+				if !(vt.Kind() == reflect.Slice && T.Elem().Kind() == reflect.Array) {
+					return none(whyPtrMismatch + ": no Go conversion from the value " + vt.String() + " to the pointer " + T.String())
+				}
+			case vt.Kind() == reflect.Ptr && T.Kind() != reflect.Ptr && !v.IsNil():
+				return none(whyPtrMismatch + ": no Go conversion from the pointer " + vt.String() + " to the value " + T.String())
+			}
 		}
 		return unas("pointer re-typing")
 	}
